@@ -419,25 +419,40 @@ func keyExchange(klen int, ida, idb []byte, pri *PrivateKey, pub *PublicKey, rpr
 	zero := new(big.Int)
 	if vx.Cmp(zero) == 0 || vy.Cmp(zero) == 0 {
 		err = errors.New("V is infinite")
+		return
 	}
 	pzb := pub
 	if !thisISA {
 		pzb = &pri.PublicKey
 	}
 	zb, err := ZA(pzb, idb)
-	k, ok := kdf(klen, vx.Bytes(), vy.Bytes(), za, zb)
+	if err != nil {
+		return
+	}
+	// field elements are converted to 32-byte strings (GM/T 0003.1 4.2.5), also when
+	// they have leading zero bytes
+	pad := func(v *big.Int) []byte {
+		b := v.Bytes()
+		if n := len(b); n < 32 {
+			b = append(zeroByteSlice()[:32-n], b...)
+		}
+		return b
+	}
+	k, ok := kdf(klen, pad(vx), pad(vy), za, zb)
 	if !ok {
 		err = errors.New("kdf: zero key")
 		return
 	}
-	h1 := BytesCombine(vx.Bytes(), za, zb, rpub.X.Bytes(), rpub.Y.Bytes(), rpri.X.Bytes(), rpri.Y.Bytes())
+	// the inner hash takes the initiator's ephemeral point (x1,y1) = RA before the
+	// responder's (x2,y2) = RB, on both sides
+	h1 := BytesCombine(pad(vx), za, zb, pad(rpri.X), pad(rpri.Y), pad(rpub.X), pad(rpub.Y))
 	if !thisISA {
-		h1 = BytesCombine(vx.Bytes(), za, zb, rpri.X.Bytes(), rpri.Y.Bytes(), rpub.X.Bytes(), rpub.Y.Bytes())
+		h1 = BytesCombine(pad(vx), za, zb, pad(rpub.X), pad(rpub.Y), pad(rpri.X), pad(rpri.Y))
 	}
 	hash := sm3.Sm3Sum(h1)
-	h2 := BytesCombine([]byte{0x02}, vy.Bytes(), hash)
+	h2 := BytesCombine([]byte{0x02}, pad(vy), hash)
 	S1 := sm3.Sm3Sum(h2)
-	h3 := BytesCombine([]byte{0x03}, vy.Bytes(), hash)
+	h3 := BytesCombine([]byte{0x03}, pad(vy), hash)
 	S2 := sm3.Sm3Sum(h3)
 	return k, S1, S2, nil
 }
